@@ -72,7 +72,7 @@ TRUSTED = ["numpy broadcasting/reshape on object arrays", "sympy.physics.quantum
 def bounds(tier):
     return {
         "two_j_small_d": list(range(0, 5 if tier == "quick" else 9)),
-        "two_j_full_D": list(range(0, 4 if tier == "quick" else 7)),
+        "two_j_full_D": list(range(0, 4 if tier == "quick" else 6)),
         "two_j_group_law_y": list(range(0, 3 if tier == "quick" else 5)),
         "cg_D_identity_2j1_2j2": "2j1,2j2 <= %d" % (2 if tier == "quick" else 4),
         "cg_table_j_max": 4,
@@ -86,7 +86,7 @@ def jobs(tier, seed):
     for tj in range(0, 5 if q else 9):
         out.append(("small_d", tj))
         out.append(("weights", tj))
-    for tj in range(0, 4 if q else 7):
+    for tj in range(0, 4 if q else 6):
         out.append(("full_D", tj))
     for tj in range(1, 3 if q else 5):
         out.append(("group_y", tj))
